@@ -5,7 +5,7 @@ import pipe
 from props import c03
 
 RULE = ("listed witnesses first, then the corpus run (quick: 300 sampled validation reactions; thorough: all 5 032) and the generated "
-        "run (stage-targeted, mutated curated, small-molecule reactions incl. heavy elements and ions); every solved row's reaction "
+        "run (stage-targeted, mutated curated, small-molecule reactions incl. heavy elements and ions), spectator molecules/ions written on both sides with unequal multiplicities, and runs with 2-5 workers (threads and process pools) and batch sizes that do not divide the input; every solved row's reaction "
         "is re-parsed and re-counted with RDKit only (all elements incl. every H, net charge); every batch is replayed through the "
         "model inside Coq.  Non-trivial: a solved row whose reaction differs from its input (something was added); distinct = "
         "distinct input reaction.")
@@ -13,7 +13,7 @@ ASSUMPTIONS = c03.ASSUMPTIONS
 TRUSTED = ["RDKit for the independent composition oracle"]
 
 
-def oracle(ctx, b):
+def oracle(ctx, b, config=None):
     if len(b["rows"]) != len(b["inputs"]):
         return
     pp = {k: v for k, v in b["tables"]["pp"] if v is not None}
@@ -31,6 +31,8 @@ def oracle(ctx, b):
         if ok is True:
             continue
         case = {"inputs": [inp], "row": r}
+        if config:
+            case = {"inputs": list(b["inputs"]), "row": r, "config": config}
         replaced = [k for k, v in pp.items() if pipe.balanced(k) is True and (v == r["reaction"] or r["reaction"].startswith(v.split(">>")[0]))]
         if replaced and r["solved_by"] in ("rule-based", "mcs-based"):
             ctx.fail("post-process-overwrites-validated", case, {"validated": replaced[0], "returned": r["reaction"],
@@ -52,6 +54,43 @@ def run(ctx):
     ctx.count("inputs", "generated_rows", sum(len(b["inputs"]) for b in gs))
     for b in wb + bs + gs:
         oracle(ctx, b)
+    # spectators with unequal multiplicities: a molecule or ion written on both sides, more often on one of them, next to an otherwise
+    # balanced reaction (ions the rule database holds and ions it does not); such a row is balanced only if something complete is added
+    rng = random.Random("c01|%s|%s" % (ctx.seed, ctx.tier))
+    BASE = ["CC(=O)O.[OH-]>>CC(=O)[O-].O", "CCBr.[OH-]>>CCO.[Br-]", "CC(=O)OCC.O>>CC(=O)O.CCO", "c1ccccc1>>c1ccccc1", "CCO.CC(=O)Cl>>CC(=O)OCC.Cl"]
+    SPEC = ["[Cs+]", "[Ag+]", "[Rb+]", "[Pd+2]", "[Na+]", "[K+]", "[Li+]", "[Cl-]", "[Br-]", "[NH4+]", "[Cu+2]", "O", "ClCCl", "[Zn+2]", "[F-]", "[Ba+2]"]
+    spect = []
+    for base in BASE:
+        l, p = base.split(">>")
+        for x in (SPEC if not ctx.quick() else rng.sample(SPEC, 7)):
+            for nl, nr in ((2, 1), (1, 2), (3, 1), (1, 0), (0, 1)):
+                ls, ps = l.split(".") + [x] * nl, p.split(".") + [x] * nr
+                rng.shuffle(ls); rng.shuffle(ps)
+                spect.append(".".join(ls) + ">>" + ".".join(ps))
+    sb, _ = pipe.cached("c01spect_%s_%d" % (ctx.tier, ctx.seed), lambda: pipe.run_batches([spect[i:i + 25] for i in range(0, len(spect), 25)]))
+    ctx.count("inputs", "spectator_multiplicity_rows", len(spect))
+    for b in sb:
+        oracle(ctx, b)
+    # configurations: worker counts > 1 and batch sizes that do not divide the input (rows only; the recorders need one worker)
+    import joblib
+    from synrbl import Balancer
+    cheap = [i for b in bs + gs if len(b["rows"]) == len(b["inputs"]) for i, r in zip(b["inputs"], b["rows"]) if r["solved_by"] != "mcs-based" and pipe.closed_shell(i)]
+    for nj, k, threads in ([(2, None, True), (3, 7, True)] if ctx.quick() else [(2, None, True), (3, 7, True), (2, 5, False), (3, None, False), (4, 9, True), (5, None, True)]):
+        ins = rng.sample(cheap, min(len(cheap), rng.choice([11, 13, 17, 19])))
+        try:
+            if threads:
+                with joblib.parallel_backend("threading", n_jobs=nj):
+                    rows = Balancer(n_jobs=nj, batch_size=k).rebalance(list(ins), output_dict=True)
+            else:
+                rows = Balancer(n_jobs=nj, batch_size=k).rebalance(list(ins), output_dict=True)
+        except Exception as e:
+            ctx.mismatch("rebalance raised with n_jobs=%d" % nj, ins[:3], str(e), None)
+            continue
+        ctx.count("configurations", "n_jobs=%d batch_size=%s %s" % (nj, k, "threads" if threads else "processes"))
+        oracle(ctx, {"inputs": ins, "rows": [{"reaction": r.get("reaction"), "input_reaction": r.get("input_reaction"), "solved": bool(r.get("solved")),
+                                            "solved_by": r.get("solved_by") if isinstance(r.get("solved_by"), str) else None} for r in rows],
+                     "tables": {"pp": []}}, config={"n_jobs": nj, "batch_size": k, "threads": threads})
+    bs = bs + sb
     for b in (wb + bs)[:2]:
         if b["rows"]:
             ctx.sample({"input": b["inputs"][0], "row": b["rows"][0]})
@@ -60,6 +99,18 @@ def run(ctx):
 
 def replay(ctx, rep):
     case = rep.get("failing_input", {})
+    if isinstance(case, dict) and "config" in case:
+        import joblib
+        from synrbl import Balancer
+        c = case["config"]
+        if c.get("threads"):
+            with joblib.parallel_backend("threading", n_jobs=c["n_jobs"]):
+                rows = Balancer(n_jobs=c["n_jobs"], batch_size=c["batch_size"]).rebalance(list(case["inputs"]), output_dict=True)
+        else:
+            rows = Balancer(n_jobs=c["n_jobs"], batch_size=c["batch_size"]).rebalance(list(case["inputs"]), output_dict=True)
+        n = len(ctx.failures)
+        oracle(ctx, {"inputs": case["inputs"], "rows": rows, "tables": {"pp": []}}, config=c)
+        return 1 if len(ctx.failures) > n else 0
     if isinstance(case, dict) and "inputs" in case:
         b = pipe.run_batch(case["inputs"])
         print(json.dumps(b["rows"], indent=1))
